@@ -58,7 +58,7 @@ impl<S> CipherStream<S, Aes128Cfb8Enc, Aes128Cfb8Dec> {
 impl<S, E, D> AsyncWrite for CipherStream<S, E, D>
 where
     S: AsyncWrite + Unpin,
-    E: BlockEncryptMut + Unpin,
+    E: BlockEncryptMut + Clone + Unpin,
     D: BlockDecryptMut + Unpin,
 {
     fn poll_write(
@@ -73,15 +73,32 @@ where
             return Pin::new(&mut self_mut.inner).poll_write(cx, buf);
         };
 
-        // encrypt buffer
-        let mut buf = buf.to_vec();
-        for chunk in buf.chunks_mut(Aes128Cfb8Enc::block_size()) {
+        // encrypt buffer with a copy of the cipher: the stream cipher state may only advance over bytes that
+        // the inner stream actually accepts (it may accept a prefix only, or nothing at all when pending)
+        let mut attempt = enc.clone();
+        let mut encrypted = buf.to_vec();
+        for chunk in encrypted.chunks_mut(Aes128Cfb8Enc::block_size()) {
             let gen_arr = GenericArray::from_mut_slice(chunk);
-            enc.encrypt_block_mut(gen_arr);
+            attempt.encrypt_block_mut(gen_arr);
         }
 
         // pass to inner
-        Pin::new(&mut self_mut.inner).poll_write(cx, &buf)
+        let poll_result = Pin::new(&mut self_mut.inner).poll_write(cx, &encrypted);
+
+        // commit the cipher state for exactly the accepted bytes
+        if let Poll::Ready(Ok(accepted)) = &poll_result {
+            if *accepted >= buf.len() {
+                *enc = attempt;
+            } else {
+                let mut accepted_bytes = buf[..*accepted].to_vec();
+                for chunk in accepted_bytes.chunks_mut(Aes128Cfb8Enc::block_size()) {
+                    let gen_arr = GenericArray::from_mut_slice(chunk);
+                    enc.encrypt_block_mut(gen_arr);
+                }
+            }
+        }
+
+        poll_result
     }
 
     fn poll_flush(self: Pin<&mut Self>, cx: &mut Context<'_>) -> Poll<Result<(), std::io::Error>> {
